@@ -167,13 +167,20 @@ inline long envInt(const char *name, long dflt)
     return v && *v ? atol(v) : dflt;
 }
 
-/// whether this process (one sub-property per process under engine/vlib/unit.py) has used
-/// 90% of VP_BUDGET_S; only consulted to SKIP work (counted as an exclusion), never to judge
-inline bool pastBudget()
+/// when this process (one sub-property per process under engine/vlib/unit.py) will have used
+/// 90% of VP_BUDGET_S, counted from its first call (0 = no budget given); only consulted to
+/// SKIP work (counted as exclusion / "space-incomplete"), never to judge
+inline double budgetDeadline()
 {
     static const double start = vp::nowS();
     static const double budget = static_cast<double>(envInt("VP_BUDGET_S", 0));
-    return budget > 0 && vp::nowS() - start > 0.9 * budget;
+    return budget > 0 ? start + 0.9 * budget : 0;
+}
+
+inline bool pastBudget()
+{
+    const double d = budgetDeadline();
+    return d > 0 && vp::nowS() > d;
 }
 
 } // namespace vs
